@@ -58,10 +58,16 @@ func execSeq(t *testing.T, plan *Plan, h seqHooks) *Outcome {
 					return
 				}
 				switch op.K {
-				case "sleep":
+				case "sleep", "clock":
 					a.exec(op)
 					continue
 				case "restart":
+					if e.out.Faults["store-after"] > 0 {
+						// a commit was persisted but reported as failed: what a restart loads is
+						// legitimately indeterminate (old or new), the model cannot follow; stop here
+						e.probe("indeterminate-restart-skipped")
+						return
+					}
 					before := e.engine.Catalog()
 					e.engine.Close()
 					e.freshProcess()
@@ -77,7 +83,7 @@ func execSeq(t *testing.T, plan *Plan, h seqHooks) *Outcome {
 					continue
 				}
 				before := e.engine.Catalog()
-				now := time.Now()
+				now := time.Now().Add(e.sim.WallOffset())
 				c := a.exec(op)
 				after := e.engine.Catalog()
 				if c == nil {
